@@ -26,6 +26,7 @@ chunk overlaps S, else it is a violation; round trip is asserted as well. Non-tr
     replay,
     exh: None,
     totality: false,
+    aggregate: None,
 };
 
 /// doc: {hex: file, plain_hex: S plaintext, s_start, s_len, wrapper, variant}
